@@ -76,10 +76,13 @@ func (f c14fault) apply(env *Env) {
 		env.Writer.FailAt, env.Writer.Torn = f.k, true
 	case "writer-short":
 		env.Writer.FailAt, env.Writer.Short = f.k, true
+	case "writer-once":
+		env.Writer.FailAt, env.Writer.Once = f.k, true
 	}
+	env.Writer.ErrVariant = f.k / 2
 }
 
-var c14kinds = []string{"reader", "reader+data", "writer", "writer-torn", "writer-short"}
+var c14kinds = []string{"reader", "reader+data", "writer", "writer-torn", "writer-short", "writer-once"}
 
 func caseC14(c *Ctx) {
 	massive := pickArm(c, []string{"simple", "massive"}, 5, 5) == "massive"
@@ -209,7 +212,7 @@ func caseC14(c *Ctx) {
 				}
 			}
 			for j := 0; j < W; j++ {
-				faults = append(faults, c14fault{"writer", j}, c14fault{"writer-torn", j}, c14fault{"writer-short", j})
+				faults = append(faults, c14fault{"writer", j}, c14fault{"writer-torn", j}, c14fault{"writer-short", j}, c14fault{"writer-once", j})
 			}
 		}
 		c.st.Add("enumerated.reader-offsets", L+1)
@@ -226,7 +229,7 @@ func caseC14(c *Ctx) {
 	}
 	// massive: one fault per case under a seeded schedule
 	var f c14fault
-	kinds := []string{"writer", "writer-torn", "writer-short"}
+	kinds := []string{"writer", "writer-torn", "writer-short", "writer-once", "writer-once"}
 	if !op.FromRoot {
 		kinds = c14kinds
 	}
